@@ -72,8 +72,12 @@ def replay(chk, data, name='c03'):
     cfg, ops, mode = ast.literal_eval(data['replay']['py'])
     code, term = srvcommon.eval_one(name, cfg, ops, mode)
     print('checker code (bit1 = model/implementation disagree, bit2 = property violated):', code)
-    rc, out = coqio.eval_print(name + '_replay', srvcommon.IMPORTS_FMT % name.upper(), '',
-                               ['first_diff (h_cfg %s) srv_init (h_ops %s) (h_obs %s) 0' % (term, term, term)])
+    ctype, imports, fn, _ = srvcommon.case_kind(name)
+    if ctype == 'xhcase':
+        q = 'xfirst_diff (xh_cfg %s) srv_init (xh_ops %s) (xh_obs %s) 0' % (term, term, term)
+    else:
+        q = 'first_diff (h_cfg %s) srv_init (h_ops %s) (h_obs %s) 0' % (term, term, term)
+    rc, out = coqio.eval_print(name + '_replay', imports, '', [q])
     print(out[-1500:])
     from drivers import srv
     res, dump = srv.run_history(cfg, ops, mode)
